@@ -97,7 +97,7 @@ def extract():
             prune_rows=rows, universe=universe, prune_classes=prune_classes,
             set_display=P.set_display_probe(cx), should_display=P.should_display_probe(cx), str=P.str_probe(cx),
             children=P.children_probe(cx), find_in_list=P.find_in_list_probe(cx), url=P.url_probe(cx),
-            project=P.project_probe(cx))
+            project=P.project_probe(cx), bound_decl=P.bound_decl_probe(cx), graph_node=P.graph_node_probe(cx))
         ch = probes["children"]
         probes["find_child"] = P.find_child_probe(cx, ch[0], ch[1])
         probes["project_find"] = P.project_find_probe(cx)
@@ -261,7 +261,24 @@ def translate():
              "inherited list object itself) -/")
     L.append("def setDisplayProbe : List (Bool × List Nat × List Nat × List Nat × Bool) := [")
     L.append(",\n".join(f"  ({lean_bool(f)}, {lean_nats(p)}, {lean_nats(m)}, {lean_nats(r)}, {lean_bool(a)})"
-                        for f, p, m, r, a in pr["set_display"]) + "]")
+                        for f, p, m, r, a in pr["set_display"][0]) + "]")
+    L.append("/-- the (class of the probe project, `meta.proc_internals`) subjects `setDisplayProbe` was measured on; the "
+             "table is the set of all their outcomes -/")
+    L.append("def setDisplaySubjects : List (String × Bool) := ["
+             + ", ".join(f"({lean_str(c)}, {lean_bool(b)})" for c, b in pr["set_display"][1]) + "]")
+    L.append("/-- the macros `type_summary` (site `summary`) / `bound_info` (site `info`) rendered by FORD's Jinja2 environment on "
+             "the real types of the probe project: (site, the binding is inherited, `tb.visible`, `visible` of the declaring "
+             "type, `external_url` set, the name of the binding was rendered as name | link:declaring-type-page | "
+             "link:carrier-page | link:external | link:other) -/")
+    L.append("def boundDeclProbe : List (String × Bool × Bool × Bool × Bool × String) := [")
+    L.append(",\n".join(f"  ({lean_str(a)}, {lean_bool(b)}, {lean_bool(c)}, {lean_bool(d)}, {lean_bool(e)}, {lean_str(o)})"
+                        for a, b, c, d, e, o in pr["bound_decl"]) + "]")
+    L.append("/-- `ford.graphs.BaseNode.__init__` on copies of real objects of the probe project: (class, is a type-bound procedure, "
+             "has a URL, `visible` true | false | absent, the parent's `visible`, the node carries a `URL` attribute, that attribute is "
+             "parent_dir + the entity's URL or both are absent) -/")
+    L.append("def graphNodeProbe : List (String × Bool × Bool × String × String × Bool × Bool) := [")
+    L.append(",\n".join(f"  ({lean_str(c)}, {lean_bool(i)}, {lean_bool(u)}, {lean_str(v)}, {lean_str(pv)}, {lean_bool(g)}, {lean_bool(ok)})"
+                        for c, i, u, v, pv, g, ok in pr["graph_node"]) + "]")
     L.append("/-- `_should_display` / `filter_display` truth table per distinct implementation among the classes of the probe "
              "project: (classes, rows (hide_undoc, documented, permission code, display codes, kept)) -/")
     L.append("def shouldDisplayProbe : List (List String × List (Bool × Bool × Nat × List Nat × Bool)) := [")
